@@ -122,11 +122,19 @@ func (c15) Generate(r *core.Rng, run int, tier string) *core.History {
 	if len(bg.Inputs) < 2 {
 		return nil
 	}
+	if r.Bool(.15) {
+		// a value-less return as the very last statement: complete in file mode, must be complete in line mode too
+		bg.Inputs = append(bg.Inputs, []string{"return"})
+	}
 	for _, in := range bg.Inputs {
 		// An explicit ';' makes the statement boundary unambiguous: grol's parser continues a statement
 		// across a newline when the next line starts with ++ / -- (x\n++y is read as x++; y), which would
 		// make "the statements of the script" differ between the generator and the parser.
 		t := in[0]
+		if t == "return" {
+			h.Events = append(h.Events, core.Event{Ev: "stmt", Text: t}) // last statement, no terminator after it
+			continue
+		}
 		if i := strings.Index(t, " // "); i >= 0 {
 			t = t[:i] + ";" + t[i:]
 		} else {
